@@ -32,6 +32,15 @@ Definition frag_add_assign (self other : frag) : frag :=
      g_code := option_or (g_code other) (g_code self);
      g_conversion := match g_conversion other with Some c => Some c | None => g_conversion self end |}.
 
+(* position of a field in the declaration of config::RewriteField (its derived Ord) *)
+Definition rf_rank (f : rewrite_field) : nat :=
+  match f with
+  | RDomainCode => 0 | RDomainFamily => 1 | RDomainSubFamily => 2 | RCreditorName => 3
+  | RCreditorAccountId => 4 | RUltimateCreditorName => 5 | RDebtorName => 6 | RDebtorAccountId => 7
+  | RUltimateDebtorName => 8 | RRemittanceUnstructuredInfo => 9 | RAdditionalEntryInfo => 10
+  | RAdditionalTransactionInfo => 11 | RSecondaryCommodity => 12 | RCategory => 13 | RPayee => 14
+  end%nat.
+
 Section Extract.
   Context {P R : Type}.
   Variable matches : rewrite_field * P -> R -> frag -> option captures.
@@ -79,7 +88,22 @@ Section Extract.
     fold_left (step e) rules f.
   Definition extract (rules : list (rule P)) (e : R) : frag := extract_from frag0 rules e.
 
-  (* building the Extractor: every field matcher must convert, no AND-list may be empty *)
+  (* building the Extractor.  TryFrom<&FieldMatcher> for MatchAndExpr (since /repo cce0c70):
+     the fields of the HashMap are applied in the declaration order of RewriteField, whatever
+     the order they were written in (sort_unstable_by_key on distinct keys).  The functions
+     above take the AND-lists as compiled here; the importers call extract on `compile rules`. *)
+  Fixpoint and_insert (m : rewrite_field * P) (l : and_list P) : and_list P :=
+    match l with
+    | [] => [m]
+    | x :: r => if Nat.leb (rf_rank (fst m)) (rf_rank (fst x)) then m :: l else x :: and_insert m r
+    end.
+  Definition and_compile (a : and_list P) : and_list P := fold_right and_insert [] a.
+  Definition rule_compile (r : rule P) : rule P :=
+    {| r_matcher := map and_compile (r_matcher r); r_pending := r_pending r; r_payee := r_payee r;
+       r_account := r_account r; r_conversion := r_conversion r |}.
+  Definition compile (rules : list (rule P)) : list (rule P) := map rule_compile rules.
+
+  (* every field matcher must convert, no AND-list may be empty *)
   Variable valid : rewrite_field * P -> bool.
   Definition and_ok (a : and_list P) : bool :=
     forallb valid a && match a with [] => false | _ => true end.
